@@ -171,6 +171,42 @@ def run(chk: Check):
                 except Exception as e:  # noqa
                     chk.violation(f"attr:{c.__name__}.{attr}:decode", f"decoding {out!r} raises {type(e).__name__}", {"class": c.__name__, "attr": attr, "value": repr(v), "observed": out})
 
+    # (c) history independence: the same values through all grids / all stepped attributes in
+    #     alternation (a result must not depend on what was formatted before)
+    vals = [3, 7, -3, 2.5, 12.5, 16.5, 87.5, 531, 1005.9, -0.25, 0.3, 8.6, 42, 99.9, 100.1] + [rng.randrange(-200, 1700) / 4 for _ in range(150)]
+    glist = sorted(grids, key=lambda g: (g[0], g[1]))
+    for order in (glist, glist[::-1]):
+        for v in vals:
+            for dec, step in order:
+                stepf = float(step) if step.denominator != 1 else int(step)
+                out = H.number_to_string_with_stepsize(v, dec, stepf)
+                chk.count_case(["interleaved", dec, str(step), repr(v)], True)
+                why = judge(v, out, dec, step)
+                if why:
+                    chk.violation(f"helper:{step}:{dec}:history-dependent", f"after formatting the same value for another grid: number_to_string_with_stepsize({v!r}, {dec}, {stepf}) = {out!r}: {why}", {"value": repr(v), "decimals": dec, "step": str(step), "observed": out, "sequence": [[d, str(s)] for d, s in order]})
+    by_class = {}
+    for c, attr, f, dec, step, special in funcs:
+        by_class.setdefault(c, []).append((attr, f, dec, step, special))
+    for c, attrs in by_class.items():
+        if len({(d, s) for _, _, d, s, _ in attrs}) < 2:
+            continue
+        conn = CapConn()
+        inst = c(conn)
+        for order in (attrs, attrs[::-1]):
+            for v in vals[:60]:
+                for attr, f, dec, step, special in order:
+                    conn.puts.clear()
+                    try:
+                        setattr(inst, attr, v)
+                    except Exception as e:  # noqa
+                        chk.violation(f"attr:{c.__name__}.{attr}:raises", f"{c.__name__}.{attr} = {v!r} raises {type(e).__name__}", {"class": c.__name__, "attr": attr, "value": repr(v)})
+                        continue
+                    chk.count_case(["attr-seq", c.__name__, attr, repr(v)], True)
+                    out = conn.puts[0][2] if conn.puts else None
+                    why = judge(v, out, dec, step, special)
+                    if why:
+                        chk.violation(f"attr:{c.__name__}.{attr}:history-dependent", f"in a sequence of assignments to {[a for a, *_ in order]}: {c.__name__}.{attr} = {v!r} transmits {out!r}: {why}", {"class": c.__name__, "attr": attr, "value": repr(v), "observed": out, "sequence": [a for a, *_ in order]})
+
     # ------------------------------------------------------------ model correspondence
     validated = 0
     if not any(b["obligation"].startswith(("translator", "compile")) for b in chk.broken):
